@@ -17,12 +17,11 @@ from pbmon.oracle import c12_gametes as O
 
 PROPERTY = "C12"
 NSHARDS = {"quick": 4, "thorough": 16}
-CLAUSES = {
-    "C12.genetic": 3000, "C12.genic": 300,
-    "C12.structure.symmetry": 150, "C12.structure.zero": 300, "C12.structure.reorder": 100, "C12.structure.labels": 150,
-    "C12.routes": 60, "C12.chunk": 150, "C12.uc": 300, "C12.uc.shape": 30,
+CLAUSES = {   # minimum evaluations per run (a quick run reaches about three times these numbers)
+    "C12.genetic": 10000, "C12.genic": 1000,
+    "C12.structure.symmetry": 500, "C12.structure.zero": 4000, "C12.structure.reorder": 400, "C12.structure.labels": 400,
+    "C12.routes": 500, "C12.chunk": 200, "C12.uc": 600, "C12.uc.shape": 80,
 }
-HOOKS_REQUIRED = ["numpy.empty poisoned"]
 RULE = ("seeded class-based cases: 2-5 parents (inbred for two/three/four-way; arbitrary phased, fully heterozygous, "
         "inbred, duplicated and phase-swapped genotypes for dihybrid), 1-7 loci for full enumeration (8-14 loci with the "
         "pairwise-marginal enumeration, up to 40 loci for the chunking clause) on 1-3 chromosomes with spread, clustered, "
@@ -198,7 +197,7 @@ def gen_parents(g, n, L, scheme):
     return h0.astype("int8"), h1.astype("int8"), "phased/" + cls
 
 
-def gen_effects(g, L, coincident_pairs):
+def gen_effects(g, L):
     nt = int(g.integers(1, 4))
     cls = ["gaussian", "gaussian", "small-int", "sparse", "cancelling", "mixed-magnitude"][int(g.integers(0, 6))]
     if cls == "small-int":
@@ -247,6 +246,8 @@ def permuted_pgmat(pg, perm):
 def gen_nself(g, L, tier="quick"):
     pool = [0, 0, 1, 1, 2, 3, 4, INF, numpy.inf, numpy.int64(2)]
     ns = pool[int(g.integers(len(pool)))]
+    if L <= 4 and g.random() < 0.1:
+        ns = 12                                   # deep but finite selfing
     deep = tier == "thorough"
     if L >= 7 and ns > (3 if deep else 2):
         ns = 3 if deep else 2
@@ -355,10 +356,11 @@ def slack(got, exp, tol):
 def case_mat(ctx, c):
     from pybrops.popgen.gmap.HaldaneMapFunction import HaldaneMapFunction
     g = ctx.rng("mat", c)
-    scheme = ["twoway", "threeway", "fourway", "dihybrid"][c % 4]
-    kind = ["vmat.genetic", "vmat.genetic", "pcvmat.genetic", "vmat.genic", "vmat.genetic", "pcvmat.genic", "pcvmat.genetic", "vmat.genic"][(c // 4) % 8]
+    # drawn (not strided) so that every shard sees every scheme/class and the shards have comparable cost
+    scheme = ["twoway", "threeway", "fourway", "dihybrid"][int(g.integers(0, 4))]
+    kind = ["vmat.genetic", "vmat.genetic", "pcvmat.genetic", "vmat.genic", "vmat.genetic", "pcvmat.genic", "pcvmat.genetic", "vmat.genic"][int(g.integers(0, 8))]
     genetic = kind.endswith("genetic")
-    big = genetic and (c // 32) % 6 == 5          # 8-14 loci: pairwise-marginal enumeration
+    big = genetic and g.random() < 1.0 / 6.0      # 8-14 loci: pairwise-marginal enumeration
     if big:
         L = int(g.integers(8, 15))
         n = int(g.integers(2, 4))
@@ -368,7 +370,7 @@ def case_mat(ctx, c):
     posmode = ["spread", "clustered", "coincident", "far", "offset"][int(g.integers(0, 5))]
     chrgrp, genpos = gen_layout(g, L, posmode)
     h0, h1, pcls = gen_parents(g, n, L, scheme)
-    u, beta, ucls = gen_effects(g, L, posmode == "coincident")
+    u, beta, ucls = gen_effects(g, L)
     nself = gen_nself(g, L, ctx.tier) if genetic else 0
     if big and nself == INF and g.random() < 0.5:
         nself = 3
@@ -440,6 +442,7 @@ def case_mat(ctx, c):
         exp = expected_entry(kind, cov_of(idx))
         got = M[tuple(idx)]
         ok = close(got, exp, tol)
+        ctx.sumnote("entries judged against the enumeration: " + type(obj).__name__)
         ctx.maxnote("worst |reported - enumerated| / tolerance (passing entries)", slack(got, exp, tol) if ok else 0.0)
         ctx.check(clause, ok, site, rel, tc,
                   what="%s%s nself=%s: reported %s, enumeration %s" % (lib_class(scheme, kind).__name__, list(idx), nself_name(nself),
@@ -526,14 +529,14 @@ def structure(ctx, g, scheme, kind, route, obj, M, pg, mod, h0, h1, homoz, tol, 
 def case_chunk(ctx, c):
     from pybrops.popgen.gmap.HaldaneMapFunction import HaldaneMapFunction
     g = ctx.rng("chunk", c)
-    scheme = ["twoway", "threeway", "fourway", "dihybrid"][c % 4]
-    kind = ["vmat.genetic", "pcvmat.genetic", "vmat.genetic", "vmat.genic", "vmat.genetic", "pcvmat.genic"][(c // 4) % 6]
+    scheme = ["twoway", "threeway", "fourway", "dihybrid"][int(g.integers(0, 4))]
+    kind = ["vmat.genetic", "pcvmat.genetic", "vmat.genetic", "vmat.genic", "vmat.genetic", "pcvmat.genic"][int(g.integers(0, 6))]
     L = int(g.integers(2, 41)) if scheme != "fourway" else int(g.integers(2, 25))
     n = int(g.integers(2, 5)) if scheme != "fourway" else int(g.integers(2, 4))
     posmode = ["spread", "clustered", "coincident", "far", "offset"][int(g.integers(0, 5))]
     chrgrp, genpos = gen_layout(g, L, posmode)
     h0, h1, pcls = gen_parents(g, n, L, scheme)
-    u, beta, ucls = gen_effects(g, L, False)
+    u, beta, ucls = gen_effects(g, L)
     nself = [0, 1, 2, 5, INF][int(g.integers(0, 5))]
     chrlen = numpy.bincount(chrgrp)[1:]
     cand = {1, 2, 3, 5, L, 1024, int(chrlen.max()), int(chrlen.max()) - 1, int(chrlen.max()) + 1, int(chrlen.min())}
@@ -591,8 +594,8 @@ def case_uc(ctx, c):
     from pybrops.popgen.gmap.HaldaneMapFunction import HaldaneMapFunction
     import pybrops.breed.prot.sel.prob.UsefulnessCriterionSelectionProblem as UCM
     g = ctx.rng("uc", c)
-    scheme = ["twoway", "threeway", "fourway", "dihybrid"][c % 4]
-    enc = ["Subset", "Binary", "Integer", "Real"][(c // 4) % 4]
+    scheme = ["twoway", "threeway", "fourway", "dihybrid"][int(g.integers(0, 4))]
+    enc = ["Subset", "Binary", "Integer", "Real"][int(g.integers(0, 4))]
     P = getattr(UCM, "UsefulnessCriterion%sMateSelectionProblem" % enc)
     kind = "vmat.genetic"
     k = NTUP[scheme]
@@ -601,7 +604,7 @@ def case_uc(ctx, c):
     posmode = ["spread", "clustered", "coincident", "far", "offset"][int(g.integers(0, 5))]
     chrgrp, genpos = gen_layout(g, L, posmode)
     h0, h1, pcls = gen_parents(g, n, L, scheme)
-    u, beta, ucls = gen_effects(g, L, False)
+    u, beta, ucls = gen_effects(g, L)
     nself = int(g.integers(0, 3))
     pctl = [0.01, 0.1, 0.25, 0.5, 0.9, 1.0, float(g.uniform(0.001, 0.999))][int(g.integers(0, 7))]
     unique = bool(g.random() < 0.5)
@@ -683,13 +686,14 @@ def case_uc(ctx, c):
             # the variance entry itself disagrees with the enumeration: that is C12.genetic's finding, not the UC assembly's
             ctx.sumnote("uc rows not judged: variance entry already contradicts the enumeration (" + tc + ")")
             continue
-        ctx.maxnote("worst |uc - expected| / tolerance (passing rows)", slack(uc[row], exp, tol) if ok else 0.0)
+        if ok and bool((var > 1e-6 * vscale).all()):   # rows with (near-)zero variance live on the propagated sqrt tolerance
+            ctx.maxnote("worst |uc - expected| / tolerance (passing rows, variance not near zero)", slack(uc[row], exp, tol))
         ctx.check("C12.uc", ok, site, "uc == progeny mean + intensity * sqrt(enumerated variance)", icls,
                   what="%s cross %s p=%s nself=%d: ucmat row %s, expected %s" % (P.__name__, list(idx), pctl, nself, uc[row].tolist(), exp.tolist()),
                   witness=dict(summary, index=list(idx), row=row, reported=uc[row], expected=exp, intensity=inten), coords=coords)
 
 
-FAMILIES = {"mat": (case_mat, 1920, 16 * 6000), "chunk": (case_chunk, 320, 16 * 1500), "uc": (case_uc, 240, 16 * 1000)}
+FAMILIES = {"mat": (case_mat, 1920, 16 * 5000), "chunk": (case_chunk, 320, 16 * 1200), "uc": (case_uc, 240, 16 * 800)}
 
 
 def run_shard(ctx):
